@@ -16,6 +16,32 @@ def run(chk):
     method_rules(chk, fx, 'C02-method')
     nd = wrap_rules(chk, 'C02-wrap')
     chk.floor('narrowing dunders', nd, 2)
+    # ---- the premise of the wrapper rules: results do go through the constructor of their static class
+    chk.rule('C02-wrapall', 'the value of every literal, variable access, call, binary and unary operation is passed through the constructor of its static class before it is used '
+                            '(hir::Expr::should_wrap answers `true` for these five kinds, unconditionally): the runtime operators return the class of their *implementation* '
+                            '(Nat // Nat is computed by Int.__floordiv__), so an unwrapped result lacks the methods its static type promises')
+    HIRF = 'crates/erg_compiler/hir.rs'
+    sw = [f_ for f_ in fx.fns(HIRF) if T.norm(f_['path']) == 'Expr::should_wrap']
+    if chk.need(len(sw) == 1, 'hir::Expr::should_wrap not found'):
+        mm = [n for n in T.walk(sw[0]['body']) if n.get('k') == 'Match']
+        if chk.need(len(mm) >= 1, 'should_wrap: no match'):
+            seen = {}
+            for arm in mm[0]['arms']:
+                for v in T.pat_variants(arm['pat']):
+                    seen.setdefault(v.split('::')[-1], arm)
+            for v in ('Literal', 'Accessor', 'Call', 'BinOp', 'UnaryOp'):
+                arm = seen.get(v)
+                if arm is None:
+                    chk.bad('C02-wrapall', 'Expr::should_wrap', 'missing:' + v, 'should_wrap has no arm for Expr::%s: such values are used without the wrapper of their static class' % v,
+                            HIRF, sw[0]['line'])
+                    continue
+                b = T.peel(arm['b'])
+                if b.get('k') == 'Lit' and (b.get('v') or {}).get('bool') is True and not arm.get('g'):
+                    chk.ok('C02-wrapall', v, sample='should_wrap: Expr::%s => true' % v)
+                else:
+                    chk.bad('C02-wrapall', 'Expr::should_wrap', 'conditional:' + v, 'should_wrap answers `%s` for Expr::%s instead of `true`: where it is false the run-time class of the value '
+                            'is whatever the runtime operator returned (e.g. Int for Nat // Nat, a plain float for Int * Float), and a method of the static class raises '
+                            'AttributeError' % (T.show(arm['b'])[:60], v), HIRF, arm['l'])
     return ('Sign-interval abstraction of Python arithmetic applied to the declared operator table, and a guard rule over the binary dunders of the value-constrained runtime classes '
             '(python ast). Decides the "value-constraint error raised by Erg\'s runtime classes" clause only; TypeError/AttributeError/NameError freedom is soundness of the whole checker.'), {}
 
